@@ -252,6 +252,7 @@ def run_shard(spec, mode=None):
             for j, pq in enumerate(["mk-pairs-2/res.json", "mk-pairs-2/filename-w.json/ident", "mk-tuple-2/ident/t.json", "mk-list-1/push-~X~/mk-tuple-2~E/l.json",
                                     "mk-df-2/frame.csv", "mk-dict-2/d.txt", "lit-abc/t.json", "mk-bytes-2/b.txt",
                                     "lit-a/vol/cat-b/v.txt", "one/vol/w.json", "one/nocache/add-2/n.txt",
+                                    "lit-%EF%BB%BFbom/ident", "lit-%EF%BB%BF%EF%BB%BFx/cat-%0A", "lit-~.lead/cat-tail~.",
                                     # longer than any key width a back-end may assume; its last prefixes share 2000 characters
                                     "lit-a/" + "/".join("cat-%s%02d" % ("x" * 150, jj) for jj in range(14))]):
                 stats["hist_id"] = "%s.fixed%d" % (spec["rep"], j)
